@@ -908,4 +908,10 @@ structure WellFormed (p : Params) (st : Stages) : Prop where
   /-- a modality LUT has entries -/
   mod_lut : ∀ f d, st.modality = true → p.modality = .lut f d → d ≠ []
 
+/-- which transforms a parameter set contains (what `__init__` finds in the datasets that apply to the frame) -/
+def presentOf (p : Params) (icc inverse : Bool) : Present :=
+  ⟨match p.rwvm with | .none => false | _ => true,
+   match p.modality with | .none => false | _ => true,
+   match p.voi with | .none => false | _ => true, icc, inverse⟩
+
 end HdVerif.PixelPipelineLemmas
